@@ -74,8 +74,17 @@ def main():
     # ---- 4. implementation
     impl_outs = []
     t_impl = time.time()
-    for c in cases:
-        impl_outs.append(mod.impl(c))
+    hangs = 0
+    for i, c in enumerate(cases):
+        o = mod.impl(c)
+        impl_outs.append(o)
+        if isinstance(o, core.Err) and o.kind == "Timeout":
+            hangs += 1
+            if hangs >= 5:
+                # an implementation that stopped terminating: five hanging cases decide the run, the rest would only take hours
+                notes.append(f"stopped after 5 cases on which the implementation did not terminate ({len(cases) - i - 1} cases not run)")
+                cases = cases[:i + 1]
+                break
     impl_s = time.time() - t_impl
 
     # ---- 5. model in the kernel
